@@ -151,3 +151,20 @@ def random_files(seed, n, path):
             f.write(json.dumps({"ts": rng.choice(["IVRLE", "EVRLE", "EVRBE"]), "pre": rng.random() < 0.5, "ds": ds, "plan": plan},
                                separators=(",", ":")) + "\n")
     return n
+
+
+# ---------------------------------------------------------------- growth beyond the listed properties (thorough tier)
+
+def note_observations(ctx, rep, title, key):
+    """Deviations found by the growth parts are observations: notes + extra coverage, never violations."""
+    classes = [(m["count"], m["class"]) for m in rep["mismatches"]]
+    ctx.extra_cov[key + "_observation_classes"] = [{"count": n, "class": c} for n, c in classes[:60]]
+    ctx.extra_cov[key + "_panics"] = rep.get("panics", [])[:10]
+    if rep.get("panics"):
+        ctx.note("GROWTH %s: %d PANIC(S) in a reader entry point (C05-class, reported to the coordinator, not a verdict of this "
+                 "property); first: %s" % (title, len(rep["panics"]), json.dumps(rep["panics"][0])[:600]))
+    if classes:
+        ctx.note("GROWTH %s: %d observation class(es) outside the statement of the listed properties (not violations): %s"
+                 % (title, len(classes), "; ".join("%s (x%d)" % (c, n) for n, c in classes[:12])))
+    else:
+        ctx.note("GROWTH %s: no deviation observed" % title)
